@@ -75,6 +75,11 @@ func writeTree(root string, files map[string]string) error {
 // evaluate runs the tree through the requested source filesystems.
 func (r *runner) evaluate(c *Case) (map[string]yrun.Outcome, error) {
 	files := c.render()
+	if c.Prelude {
+		for k, v := range preludeFiles() {
+			files[k] = v
+		}
+	}
 	res := map[string]yrun.Outcome{}
 	var mu sync.Mutex
 	var wg sync.WaitGroup
@@ -90,6 +95,9 @@ func (r *runner) evaluate(c *Case) (map[string]yrun.Outcome, error) {
 				m["gp/"+k] = v
 			}
 			job = &yrun.Job{GoPath: "gp", Files: m, Path: "gp/" + c.mainFile()}
+			if c.Prelude {
+				job.BeforePath = "gp/" + preludeMain
+			}
 		case "disk":
 			name := fmt.Sprintf("t%d", seq)
 			root := filepath.Join(r.scratch, name)
@@ -100,6 +108,12 @@ func (r *runner) evaluate(c *Case) (map[string]yrun.Outcome, error) {
 			job = &yrun.Job{GoPath: root, Path: filepath.FromSlash(name + "/" + c.mainFile())}
 			if c.AbsMain {
 				job.Path = filepath.Join(root, filepath.FromSlash(c.mainFile()))
+			}
+			if c.Prelude {
+				job.BeforePath = filepath.FromSlash(name + "/" + preludeMain)
+				if c.AbsMain {
+					job.BeforePath = filepath.Join(root, filepath.FromSlash(preludeMain))
+				}
 			}
 		default:
 			return nil, fmt.Errorf("unknown mode %q", mode)
